@@ -80,6 +80,8 @@ probes! {
     matdot_elems => "probe.matrix_elements_checked",
     matdot_nar => "probe.matrix_element_nar",
     matdot_inner4 => "probe.matrix_inner_dimension_4+",
+    matdot_view => "probe.matrix_operand_is_strided_or_offset_view",
+    matdot_static => "probe.matrix_statically_sized",
     // ---- C12 probes
     neg_multi_limb => "probe.neg_of_state_with_2+_nonzero_limbs",
     neg_low_zero => "probe.neg_of_state_with_zero_low_limbs",
@@ -113,8 +115,10 @@ probes! {
     rng_mode_lowent => "rng_mode_runs.low_entropy",
     rng_mode_counter => "rng_mode_runs.counter",
     rng_mode_bitwalk => "rng_mode_runs.bit_walk",
+    rng_mode_zero => "rng_mode_runs.zero_forever",
     rng_skew => "rng_mode_runs.width_skew",
     rng_burst_fired => "rng_fault_fired.stuck_burst",
+    rng_long_burst => "rng_fault_fired.long_stuck_burst_2^10..2^17",
     rng_edge_fired => "rng_fault_fired.edge_word",
     rng_lowent_fired => "rng_fault_fired.low_entropy_word",
     rng_counter_wrap => "rng_fault_fired.counter_wrap_2^32",
@@ -126,6 +130,7 @@ probes! {
     rng_entry_iter => "rng_entry.sample_iter",
     rng_entry_dyn => "rng_entry.dyn_rngcore",
     rng_entry_multi => "rng_entry.array_or_tuple",
+    rng_entry_zst => "rng_entry.zero_sized_generator_type",
     rng_reject1 => "probe.rejection_loop_1+",
     rng_reject4 => "probe.rejection_loop_4+",
     rng_out_zero => "probe.sample_is_zero",
